@@ -31,7 +31,9 @@ import (
 
 type connPlugins struct{ *fakes.Plugins }
 
-func (connPlugins) List(context.Context) (map[string]pconnector.Specification, error) { return nil, nil }
+func (connPlugins) List(context.Context) (map[string]pconnector.Specification, error) {
+	return nil, nil
+}
 func (connPlugins) ValidateSourceConfig(_ context.Context, _ string, s map[string]string) error {
 	if s["invalid"] != "" {
 		return fmt.Errorf("invalid source config")
@@ -119,10 +121,10 @@ func newSys(values map[string][]byte) (*sys, error) {
 // op is one API call. Entities are referenced by creation ordinal within their kind (-1 = a non-existing id).
 type op struct {
 	Kind string `json:"kind"`
-	A    int    `json:"a"`         // target ordinal
-	B    int    `json:"b"`         // second ordinal (parent)
-	Arg  string `json:"arg"`       // variant
-	Fail int    `json:"fail_k"`    // fail the k-th store operation of this call (0 = none)
+	A    int    `json:"a"`      // target ordinal
+	B    int    `json:"b"`      // second ordinal (parent)
+	Arg  string `json:"arg"`    // variant
+	Fail int    `json:"fail_k"` // fail the k-th store operation of this call (0 = none)
 }
 
 func (o op) String() string {
